@@ -2165,11 +2165,13 @@ class BackendMixin(PasswordHash):
         """
         helper for subclasses to create stub methods which auto-load backend.
         """
-        if cls.__backend:
-            raise AssertionError(
-                f"{cls.name}: _finalize_backend({cls.__backend!r}) failed to replace lazy loader"
-            )
-        cls.set_backend()
+        with _backend_lock:
+            # NOTE: another thread may have loaded the backend between the moment
+            #       our caller looked up the stub method and now; that's not an error,
+            #       the caller will pick up the real method when it retries the lookup.
+            if cls.__backend:
+                return
+            cls.set_backend()
         if not cls.__backend:
             raise AssertionError(
                 f"{cls.name}: set_backend() failed to load a default backend"
